@@ -402,11 +402,23 @@ class Gen:
             same = [q["sequence"] for q in infl if q["receiver"] == p["receiver"]]
             k = r.randint(1, min(3, len(same)))
             sel = r.sample(same, k)
-            if r.random() < 0.15:
+            if r.random() < 0.3:
                 sel = sel + [sel[0]]
             if r.random() < 0.1:
                 sel = sel + [424242]
             recv = p["receiver"] if p["receiver"] != su.staker or r.random() < 0.5 else None
+            # a forced recovery of refundable packets only (one receiver, one denom) that names an id again after another
+            groups = {}
+            for q in infl:
+                if q["status"] in ("ack_failure", "timed_out"):
+                    groups.setdefault((q["receiver"], q["amount"]["denom"]), []).append(q["sequence"])
+            big = [(k_, v_) for k_, v_ in sorted(groups.items()) if len(v_) >= 2]
+            if big and r.random() < 0.4:
+                (rc_, _), seqs_ = r.choice(big)
+                a_, b_ = r.sample(seqs_, 2)
+                sel = r.choice([[a_, b_, a_], [a_, b_, b_, a_], [b_, a_, b_]])
+                recv = rc_
+                who = su.admin
         msg = {"recover_pending_ibc_transfers": {"paginated": pag, "selected_packets": sel, "receiver": recv}}
         return [exec_ev(who, msg, [], self.faults())]
 
